@@ -7,12 +7,14 @@ import warnings
 from vcheck.val import exc_code
 
 
-def fl(x):
+def fl(x, keep_nan=False):
     if x is None:
         return None
     x = float(x)
-    if math.isnan(x) or math.isinf(x):
-        return None if math.isnan(x) else ("inf" if x > 0 else "-inf")
+    if math.isnan(x):
+        return "nan" if keep_nan else None
+    if math.isinf(x):
+        return "inf" if x > 0 else "-inf"
     return x
 
 
@@ -26,6 +28,7 @@ def run_dist(case):
 
     names, seqs = case["names"], case["seqs"]
     aln = make_aligned_seqs(dict(zip(names, seqs)), moltype=case.get("moltype", "dna"))
+    aln_before = (list(aln.names), aln.to_dict())
     kw = {}
     if case["calc"] == "logdet":
         kw["use_tk_adjustment"] = bool(case.get("tk", True))
@@ -54,7 +57,7 @@ def run_dist(case):
                 r = calc.func(m.copy(), *calc._func_args)
                 direct.append(dict(counts=[[int(x) for x in row] for row in m.tolist()],
                                    counts_py=[[int(x) for x in row] for row in m2.tolist()],
-                                   total=fl(r[0]), p=fl(r[1]), dist=fl(r[2])))
+                                   total=fl(r[0]), p=fl(r[1]), dist=fl(r[2], keep_nan=True)))
         api = None
         if case.get("api"):
             try:
@@ -64,7 +67,49 @@ def run_dist(case):
             except ArithmeticError:
                 api = "arith"
     return dict(order=order, states="".join(list(calc.moltype)), cells=cells, diag=diag, direct=direct,
-                dupes=sorted(calc._dupes or []), api=api)
+                dupes=sorted(calc._dupes or []), api=api, dm_names=sorted(dnames),
+                input_unchanged=(list(aln.names), aln.to_dict()) == aln_before)
+
+
+def dm_cells(dm, names):
+    """cells of every ordered pair of `names` (in that order) + the names the matrix really has"""
+    d = dm.to_dict()
+    return dict(cells=[fl(d.get((a, b))) if (a, b) in d else "absent" for a in names for b in names if a != b],
+                dm_names=sorted(dm.names))
+
+
+def run_dist_history(case):
+    """ONE calculator object and ONE fast_slow_dist app instance run over several alignments in turn;
+    next to each result the result of a fresh calculator on the same alignment"""
+    from cogent3 import make_aligned_seqs
+    from cogent3.app.dist import fast_slow_dist
+    from cogent3.evolve import fast_distance as fd
+
+    kw = {}
+    if case["calc"] == "logdet":
+        kw["use_tk_adjustment"] = bool(case.get("tk", True))
+    out = []
+    with warnings.catch_warnings():
+        warnings.simplefilter("ignore")
+        calc = fd.get_distance_calculator(case["calc"], moltype="dna", **kw)
+        app = fast_slow_dist(fast_calc=case["calc"], moltype="dna") if case.get("tk", True) else None
+        for step in case["steps"]:
+            names, seqs = step["names"], step["seqs"]
+            aln = make_aligned_seqs(dict(zip(names, seqs)), moltype="dna")
+            before = (list(aln.names), aln.to_dict())
+            order = list(aln.names)
+            o = dict(order=order)
+            calc.run(alignment=aln, show_progress=False)
+            o["reused_calc"] = dm_cells(calc.get_pairwise_distances(), order)
+            if app is not None:
+                r = app(aln)
+                o["reused_app"] = dm_cells(r, order) if hasattr(r, "to_dict") and hasattr(r, "names") else {"error": str(r)[:300]}
+            fresh = fd.get_distance_calculator(case["calc"], moltype="dna", alignment=aln, **kw)
+            fresh.run(show_progress=False)
+            o["fresh"] = dm_cells(fresh.get_pairwise_distances(), order)
+            o["input_unchanged"] = (list(aln.names), aln.to_dict()) == before
+            out.append(o)
+    return dict(steps=out)
 
 
 # ------------------------------------------------------------------ trees
@@ -112,6 +157,7 @@ def run_nj(case):
 
     names, matrix = case["names"], case["matrix"]
     dists = full_dict(names, matrix)
+    dists_before = dict(dists)
     trace = []
     final = {}
     orig_join = njm.PartialTree.join
@@ -149,6 +195,7 @@ def run_nj(case):
 
     order, _ = distance_dict_to_2D(dists)
     out = dict(order=list(order), trace=trace, final=final, tree=tree_obs(tree))
+    out["input_unchanged"] = dists == dists_before
     if case.get("also_quick_tree"):
         qt = DistanceMatrix(dists).quick_tree()
         out["quick_tree"] = tree_obs(qt)
@@ -168,6 +215,7 @@ def run_upgma(case):
 
     names, matrix = case["names"], case["matrix"]
     dists = full_dict(names, matrix)
+    dists_before = dict(dists)
     merges = []
     orig = up.condense_matrix
 
@@ -181,7 +229,42 @@ def run_upgma(case):
     finally:
         up.condense_matrix = orig
     order = [n.name for n in up.inputs_from_dict_array(DictArray(dists))[1]]
-    return dict(order=order, merges=merges, tree=tree_obs(tree), big=float(up.BIG_NUM))
+    return dict(order=order, merges=merges, tree=tree_obs(tree), big=float(up.BIG_NUM), input_unchanged=dists == dists_before)
+
+
+def run_dm_history(case):
+    """a sequence of tree builders called on ONE DistanceMatrix object; after every call: the tree and
+    whether the object still holds the input"""
+    import numpy
+
+    from cogent3.cluster import UPGMA as up
+    from cogent3.evolve.fast_distance import DistanceMatrix
+    from cogent3.phylo import nj as njm
+
+    names, matrix = case["names"], case["matrix"]
+    dm = DistanceMatrix(full_dict(names, matrix))
+    snap_names = list(dm.names)
+    snap = dm.array.copy()
+    out = []
+    for op in case["ops"]:
+        o = dict(op=op)
+        try:
+            if op == "upgma":
+                tree = up.upgma(dm)
+            elif op == "nj":
+                tree = njm.nj(dm, show_progress=False)
+            elif op == "quick_tree":
+                tree = dm.quick_tree()
+            else:
+                raise ValueError(op)
+            o["tree"] = tree_obs(tree)
+        except Exception as e:  # noqa: BLE001
+            o["exc"] = exc_code(e)
+            o["msg"] = f"{type(e).__name__}: {e}"[:200]
+        o["input_unchanged"] = bool(list(dm.names) == snap_names and dm.array.shape == snap.shape
+                                    and numpy.array_equal(dm.array, snap))
+        out.append(o)
+    return dict(steps=out)
 
 
 def run_case(case):
@@ -193,6 +276,10 @@ def run_case(case):
             return run_nj(case)
         if k == "upgma":
             return run_upgma(case)
+        if k == "dist_history":
+            return run_dist_history(case)
+        if k == "dm_history":
+            return run_dm_history(case)
         raise ValueError(k)
     except Exception as e:  # noqa: BLE001
         import traceback
